@@ -67,3 +67,6 @@ theories/Jbd2/Jbd2Proofs.vos theories/Jbd2/Jbd2Proofs.vok theories/Jbd2/Jbd2Proo
 theories/Properties_C03.vo theories/Properties_C03.glob theories/Properties_C03.v.beautified theories/Properties_C03.required_vo: theories/Properties_C03.v theories/Jbd2/Jbd2Model.vo theories/Jbd2/Jbd2Proofs.vo
 theories/Properties_C03.vio: theories/Properties_C03.v theories/Jbd2/Jbd2Model.vio theories/Jbd2/Jbd2Proofs.vio
 theories/Properties_C03.vos theories/Properties_C03.vok theories/Properties_C03.required_vos: theories/Properties_C03.v theories/Jbd2/Jbd2Model.vos theories/Jbd2/Jbd2Proofs.vos
+theories/Properties_C04.vo theories/Properties_C04.glob theories/Properties_C04.v.beautified theories/Properties_C04.required_vo: theories/Properties_C04.v theories/Jbd2/Jbd2Model.vo theories/Jbd2/Jbd2Proofs.vo theories/Properties_C03.vo
+theories/Properties_C04.vio: theories/Properties_C04.v theories/Jbd2/Jbd2Model.vio theories/Jbd2/Jbd2Proofs.vio theories/Properties_C03.vio
+theories/Properties_C04.vos theories/Properties_C04.vok theories/Properties_C04.required_vos: theories/Properties_C04.v theories/Jbd2/Jbd2Model.vos theories/Jbd2/Jbd2Proofs.vos theories/Properties_C03.vos
